@@ -39,6 +39,7 @@ def setup(ctx):
     ctx.require("monitor", "stalled_reader_streams", 10)
     ctx.require("monitor", "at_limit_streams", 8)
     ctx.require("monitor", "l2_late_client_bytes_while_answering", 10)
+    ctx.require("monitor", "l2_client_half_close", 20)
     ctx.require("monitor", "static_files_with_special_text", 8)
     ctx.require("backend", "pyopenssl", 10)
     ctx.require("backend", "stdlib", 10)
@@ -161,11 +162,11 @@ def run_l2(ctx):
                     body = text_body(n, rng)
                     exp_body = body.encode("utf-8")
                     meta = "text/gemini"
-                mode = ("sync", "async", "sync", "async-slow+late-client-bytes")[idx % 4]
+                mode = ("sync", "async", "sync+client-half-close", "async-slow+late-client-bytes")[idx % 4]
 
                 def handler(req, body=body, meta=meta, mode=mode):
                     r = GeminiResponse(status=20, meta=meta, body=body)
-                    if mode == "sync":
+                    if mode.startswith("sync"):
                         return r
 
                     async def co():
@@ -190,13 +191,24 @@ def run_l2(ctx):
                     if not bench.handshake(coalesce_with=req if coalesce else None):
                         ctx.inconclusive_because(f"L2 handshake failed: {bench.error}")
                         continue
-                    if not coalesce:
+                    half_close = mode.endswith("client-half-close")
+                    if half_close:
+                        # the client shuts its side down right after the request (request and close_notify arrive
+                        # in one read) and keeps reading: the whole response is still owed to it
+                        bench = tlsbench.Sandwich(loop, lambda: GeminiServerProtocol(handler), backend=backend, capacity=65536 if (idx // 4) % 2 == 0 else None)
+                        coalesce = False
+                        if not bench.handshake():
+                            ctx.inconclusive_because(f"L2 handshake failed: {bench.error}")
+                            continue
+                        bench.client_send_then_close_notify(req)
+                        ctx.count("monitor", "l2_client_half_close")
+                    elif not coalesce:
                         bench.client_send(req)
                     if mode.startswith("async-slow"):
                         loop.advance(0.25)
                         bench.client_send(rng.choice([b"\r\n", b"gemini://localhost/other\r\n", b"x" * 40 + b"\r\n", b"\r\n\r\n"]))
                         ctx.count("monitor", "l2_late_client_bytes_while_answering")
-                    bench.finish()
+                    bench.finish(peer_closes_after_server=not half_close)
                     expected = f"20 {meta}\r\n".encode() + exp_body
                     case = {"backend": backend, "len": n, "btype": btype, "source": "spy-" + mode, "cuts": cuts_kind, "coalesce": coalesce}
                     compare(ctx, case, expected, bytes(bench.client_plain), bench.client_eof, "L2")
